@@ -79,7 +79,7 @@ for p in props:
           "thorough_cmd": f"./run.sh {i} thorough",
           "evidence_file": f"evidence/{i}.json",
           "replay_cmd_template": f"./run.sh {i} quick --replay {{path}}",
-          "engine": "vcheck",
+          "engine": "vcheck (harness/src/bin/cNN)",
           "level_claimed": {"category": c['level'], "text": c['text'], "design_ref": c['ref']},
           "level_note": c['note'],
           "technique": c['technique'],
@@ -97,7 +97,7 @@ m={
    "add_only": True
  },
  "engines": [
-   {"name": "vcheck", "path": "harness/", "serves_properties": sorted(CLAIMED), "kind_free_text": "Rust binary: seeded parallel proptest runners (16 workers), string reference model, CLI driver with watchdog, shrinking to replay files, evidence writer"},
+   {"name": "vcheck", "path": "harness/", "serves_properties": sorted(CLAIMED), "kind_free_text": "Rust library + one binary per property (harness/src/bin/cNN.rs, so that an API change under one check does not stop the others from building): seeded parallel proptest runners (16 workers), string reference model, CLI driver with watchdog, shrinking to replay files, evidence writer"},
  ],
  "checks": checks,
  "not_applicable": na,
